@@ -252,7 +252,10 @@ async fn one_run(run: u64, seed: u64, steps: usize, out: &mut dyn Write) -> (usi
         let qids: Vec<u32> = snap["queues"].as_array().unwrap().iter().map(|q| q["id"].as_u64().unwrap() as u32).collect();
         let alloc_ids: Vec<String> = snap["queues"].as_array().unwrap().iter().flat_map(|q| q["allocs"].as_array().unwrap().iter().map(|a| a["id"].as_str().unwrap().to_string())).collect();
         let active_allocs: Vec<String> = snap["queues"].as_array().unwrap().iter().flat_map(|q| q["allocs"].as_array().unwrap().iter().filter(|a| a["st"] == "Queued" || a["st"] == "Running").map(|a| a["id"].as_str().unwrap().to_string())).collect();
-        let choice = rng.below(100);
+        // "status error storm" runs: the batch system answers status queries mostly with errors, so that allocations reach the
+        // limits on status errors (10 while queued, 20 while running) - which a uniform choice of reports practically never does
+        let storm = run % 4 == 2;
+        let choice = if storm && !active_allocs.is_empty() && rng.below(100) < 55 { 60 } else { rng.below(100) };
         if std::env::var("HQV_DEBUG").is_ok() { eprintln!("choice {choice}"); }
         let _ = panics::take();
         let mut demand: Vec<Value> = Vec::new();
@@ -293,7 +296,13 @@ async fn one_run(run: u64, seed: u64, steps: usize, out: &mut dyn Write) -> (usi
             // external status reports, also contradictory ones
             let mut st = BTreeMap::new();
             for id in &active_allocs {
-                let s = ["queued", "running", "running", "finished", "failed", "error", "missing", "queued"][rng.below(8)];
+                let s = if storm && rng.below(100) < 88 {
+                    "error"
+                } else if storm {
+                    ["queued", "running", "running", "running"][rng.below(4)]
+                } else {
+                    ["queued", "running", "running", "finished", "failed", "error", "missing", "queued"][rng.below(8)]
+                };
                 st.insert(id.clone(), s);
             }
             let global = rng.below(12) == 0;
